@@ -6,7 +6,7 @@ Import ListNotations.
 Open Scope Z_scope.
 
 Definition row (l r : Z) (sa : list widf) (concat : bool) : rec :=
-  mkRec 19 true false (NumLit l) (NumLit r) (NumLit 100) None (Some (match sa with [] => 0 | _ => 2 end)) sa [] [] true concat false.
+  mkRec 19 true false (NumLit l) (NumLit r) (NumLit 100) None (Some (match sa with [] => 0 | _ => 2 end)) sa [] [] true concat false 0%N.
 
 Definition m32 : list cline := [[]; [TNum 3; TNum 2]; [TNum 2; TNum 1; TNum 7]; []; [TNum 0; TNum 0; TNum (-5)]].
 
@@ -56,7 +56,8 @@ Definition pinned_bfacts : bfacts :=
   mkBFacts [mkG CastNone CGe (ODim NumLeft)] [] [mkG CastNone CGe (ODim NumRight)] []
            (mkG CastNone CGe (OConst 0)) CGe (mkG CastNone CGt (OConst 127)) 268435455
            true false false [mkG CastNone CLt (OConst 0)] [mkG CastNone CLt (OConst 0)] 2 3 [] []
-           (IAdd (IMul IRight INumLeft) ILeft) (IAdd (IMul IRight INumLeft) ILeft) KRightId KLeftId.
+           (IAdd (IMul IRight INumLeft) ILeft) (IAdd (IMul IRight INumLeft) ILeft) KRightId KLeftId
+           (mkG CastNone CGt (OConst 127)) true.
 
 Example pinned_guards_fail_obligation : bfacts_ok pinned_bfacts = false.
 Proof. vm_compute. reflexivity. Qed.
@@ -89,13 +90,39 @@ Proof. eexists. vm_compute. split; reflexivity. Qed.
 (* a surface containing U+0000 reaches an assertion of the trie builder *)
 Example compile_never_panics_refuted_pinned_nul_surface :
   build_with pinned_bfacts (mkInput (SystemDic m32)
-    [mkRec 19 true false (NumLit 0) (NumLit 0) (NumLit 1) None (Some 0) [] [] [] true true true]) = Panic.
+    [mkRec 19 true false (NumLit 0) (NumLit 0) (NumLit 1) None (Some 0) [] [] [] true true true 0%N]) = Panic.
 Proof. vm_compute. reflexivity. Qed.
 
 (* a lexicon without indexed entries reaches the assertion of the trie builder *)
 Example compile_never_panics_refuted_pinned_no_indexed :
   build_with pinned_bfacts (mkInput (SystemDic m32) [row (-1) (-1) [] true]) = Panic.
 Proof. vm_compute. reflexivity. Qed.
+
+(* ---- the arrays of the word-id table: homographs (rows with one surface) ---- *)
+Definition hrow (l : Z) (s : N) : rec := mkRec 19 true false (NumLit l) (NumLit 0) (NumLit 100) None (Some 0) [] [] [] true true false s.
+Definition m11 : list cline := [[TNum 1; TNum 1]].
+
+(* 127 indexed rows of one surface compile (with further rows of that surface that are not indexed, and rows of another
+   surface); the 128th is an error; rows that are not indexed do not count *)
+Example ex_homographs :
+  map (fun rs => match build (mkInput (SystemDic m11) rs) with Ok d => if index_lists_ok d then 1 else 3 | Err => 0 | Panic => 2 end)
+    [ repeat (hrow 0 5) 127; repeat (hrow 0 5) 128; repeat (hrow 0 5) 127 ++ repeat (hrow (-1) 5) 40 ++ repeat (hrow 0 6) 127;
+      repeat (hrow 0 5) 100 ++ [hrow 0 6] ++ repeat (hrow 0 5) 28; repeat (hrow 0 5) 256; repeat (hrow 0 5) 300 ]
+  = [1; 0; 1; 0; 0; 0].
+Proof. vm_compute. reflexivity. Qed.
+
+(* an IndexBuilder that writes the id lists by hand (fact word_id_table_through_write_u32_array = false): success with an
+   array beyond the limit *)
+Definition unchecked_index_bfacts : bfacts :=
+  mkBFacts (b_left_g gen_bfacts) (b_left_gi gen_bfacts) (b_right_g gen_bfacts) (b_right_gi gen_bfacts) (b_indexed gen_bfacts)
+           (b_wid_cmp gen_bfacts) (b_list_len gen_bfacts) (b_word_mask gen_bfacts) (b_empty_panics gen_bfacts) (b_nul_err gen_bfacts)
+           (b_empty_trie_err gen_bfacts) (b_hdr_left_g gen_bfacts) (b_hdr_right_g gen_bfacts) (b_hdr_fields gen_bfacts)
+           (b_line_fields gen_bfacts) (b_elem_left_g gen_bfacts) (b_elem_right_g gen_bfacts) (b_elem_index gen_bfacts)
+           (b_matrix_index gen_bfacts) (b_arg_left gen_bfacts) (b_arg_right gen_bfacts) (b_index_len gen_bfacts) false.
+
+Example index_arrays_within_limit_refuted_unchecked :
+  exists d, build_with unchecked_index_bfacts (mkInput (SystemDic m11) (repeat (hrow 0 5) 128)) = Ok d /\ index_lists_ok d = false.
+Proof. eexists. vm_compute. split; reflexivity. Qed.
 
 (* ---- repeated compile calls on one builder ---- *)
 
@@ -167,4 +194,11 @@ Proof. vm_compute. reflexivity. Qed.
 Example history_success_means_valid_refuted_user_matrix :
   map codeh (run_history gen_bfacts true false (init_user 4 3 6)
     [OConn [[TNum 10; TNum 10]]; OLex [row 9 9 [] true]; OCompile]) = [0; 0; 3].
+Proof. vm_compute. reflexivity. Qed.
+
+(* rows of several read_lexicon calls count together *)
+Example ex_history_homographs :
+  map (fun r => match r with Ok None => 0 | Ok (Some d) => if index_lists_ok d then 1 else 3 | Err => -1 | Panic => -2 end)
+    (history init_system [OConn m11; OLex (repeat (hrow 0 5) 64); OLex (repeat (hrow 0 5) 63); OCompile; OLex [hrow 0 5]; OCompile])
+  = [0; 0; 0; 1; 0; -1].
 Proof. vm_compute. reflexivity. Qed.
